@@ -71,6 +71,9 @@ def build():
     C.strings = True
     C.finite_checks.append(spec_defaults_check)
     C.finite_checks.append(common.native_demo_check(
+        'c10_tilt_while_no_ball_in_play.py',
+        'a tilt that arrives while no ball is in play (ball ending held by the bonus) does not leave the machine tilted with live flippers for the next ball'))
+    C.finite_checks.append(common.native_demo_check(
         "c10_repulse_stopped_while_button_held.py",
         "a flipper disabled while its software EOS repulse holds the coil (button still held) leaves the coil off"))
     common.declare_events(C)
